@@ -175,6 +175,12 @@ func (s *sink) schedule(c Case, r *vh.Rng, thorough, verboseOut bool) {
 			faultPos = append(faultPos, r.Intn(n+1))
 		}
 	}
+	// every offset of the trailing trivia (after the last non-blank byte) and the very end: a reader
+	// that fails there fails *instead of* reporting the end of input
+	last := len(bytes.TrimRight(c.Input, " \t\r\n"))
+	for p := last; p <= n && p-last < 64; p++ {
+		faultPos = append(faultPos, p)
+	}
 	for i, p := range faultPos {
 		cc := c
 		cc.Sched = Sched{Chunk: vh.Pick(r, []string{"whole", "whole", "rand", "1"}), Seed: 3, FaultAt: p, Fault: []string{"inj", "ueof"}[i%2]}
@@ -188,6 +194,17 @@ func (s *sink) schedule(c Case, r *vh.Rng, thorough, verboseOut bool) {
 			s.panicOrHang(cc, got)
 		case got.Delivered && got.Verdict != "error":
 			s.add(violation{Prop: "C15", Kind: "fault-swallowed", Format: c.Format, Sub: cc.Sched.Fault, Detail: fmt.Sprintf("reader failed at offset %d of %d but the decoder ended cleanly with %d statements", p, n, len(got.Stmts)), Case: cc})
+		case !got.Delivered && ref.Verdict == "clean" && got.Verdict == "clean":
+			// The complete document decodes cleanly and this reader never reports the end of input (it
+			// fails at offset p <= len instead): a clean end means the decoder stopped reading before the
+			// end of input and so cannot have noticed the failure. Expected verdict: an error — "the
+			// reader fails with an error => the decoder reports an error", wherever the failure is,
+			// including the trailing white space / comments and the position of io.EOF itself.
+			where := "inside-document"
+			if p >= last {
+				where = "trailing-trivia-or-end"
+			}
+			s.add(violation{Prop: "C15", Kind: "fault-not-read", Format: c.Format, Sub: where, Detail: fmt.Sprintf("reader fails at offset %d of %d (never reports end of input) but the decoder ended cleanly with %d statements without reading that far; expected: an error", p, n, len(got.Stmts)), Case: cc})
 		case streaming[c.Format] && ref.Verdict == "clean" && !isPrefixUpToLast(got.Stmts, ref.Stmts):
 			s.add(violation{Prop: "C15", Kind: "prefix", Format: c.Format, Sub: prefixSub("fault", got.Stmts, ref.Stmts), Detail: "statements before the reader fault are not a prefix of the complete document's: " + firstDiff(got.Stmts, ref.Stmts), Case: cc})
 		}
@@ -269,6 +286,17 @@ func (e *engine) runSchedules() {
 				s := pick()
 				emit(Case{Format: f, Opts: e.randOpts(r, f), Input: mutate(r, s.B, hot), Family: "mutated", Name: s.Name})
 			}
+			// documents followed by trailing trivia (white space, comments): faults are injected at every offset of it
+			nTrail := 4
+			if e.thorough {
+				nTrail = 30
+			}
+			for i := 0; i < nTrail*e.scale; i++ {
+				s := pick()
+				for _, t := range trailingTrivia(f) {
+					emit(Case{Format: f, Opts: e.randOpts(r, f), Input: append(append([]byte(nil), s.B...), t...), Family: "trailing-trivia", Name: s.Name})
+				}
+			}
 			// documents whose first character is multi-byte (see firstBytes)
 			nFirst := 6
 			if e.thorough {
@@ -337,4 +365,17 @@ func refine(st []string) []string {
 		cur[i] = reBn.ReplaceAllStringFunc(s, func(l string) string { return "_:" + colour[l] })
 	}
 	return cur
+}
+
+// trailingTrivia: what may follow a complete document of the format without changing its meaning.
+func trailingTrivia(format string) []string {
+	switch format {
+	case "rdfxml":
+		return []string{"\n", "\n\n  \n", "<!-- trailing comment -->\n", "\n<?pi x?>\n"}
+	case "jsonld", "rdfjson":
+		return []string{"\n", " \t\r\n\n"}
+	case "nt", "nq", "ttl", "trig":
+		return []string{"\n", "\n# trailing comment\n", "# c"}
+	}
+	return []string{"\n", "<!-- trailing comment -->\n", "\n\n"}
 }
